@@ -211,6 +211,25 @@ def run_item(item):
                         m = U.mk(SMG, atoms, bonds, bstereo=[("PlanarBond", RS.apply(t, q), 0)])
                         roundtrip(m, out, item, "ez" + ("/scattered-ids" if pool is POOL2 else ""), bond_orders=True,
                                   need_bond_stereo=True)
+        # imines X(Y)C=N-Z with the nitrogen lone pair as placeholder, every spelling (placeholder at position 0/1/4/5)
+        for (x, y) in itertools.combinations(("H", "F", "Cl", "C"), 2):
+            for z in ("H", "F", "C"):
+                for swap in (False, True):
+                    pool = list(range(1, 30))
+                    ids = pool[:5]
+                    atoms = [(ids[0], "C"), (ids[1], "N"), (ids[2], x), (ids[3], y), (ids[4], z)]
+                    bonds = [(ids[0], ids[1]), (ids[0], ids[2]), (ids[0], ids[3]), (ids[1], ids[4])]
+                    nxt = 5
+                    for k, e in ((2, x), (3, y), (4, z)):
+                        if e == "C":
+                            for _ in range(3):
+                                atoms.append((pool[nxt], "H"))
+                                bonds.append((ids[k], pool[nxt]))
+                                nxt += 1
+                    t = (ids[2], ids[3], ids[0], ids[1], None, ids[4]) if swap else (ids[2], ids[3], ids[0], ids[1], ids[4], None)
+                    for q in sorted(RS.ROT("PlanarBond")):
+                        m = U.mk(SMG, atoms, bonds, bstereo=[("PlanarBond", RS.apply(t, q), 0)])
+                        roundtrip(m, out, item, "ez-imine", bond_orders=True, need_bond_stereo=True)
         out["samples"].append({"part": "E/Z with regenerated bond orders"})
         return out
     # organic molecules imported from RDKit, then exported and imported again
